@@ -44,7 +44,7 @@ def exhaustive_short(length):
 
 def run(ctx):
     from translate import alglists
-    ctx.lean_stage(["C14", "C14b", "C14Wf"], translators=[alglists.run])
+    ctx.lean_stage(["C14", "C14b", "C14Wf"])
     bdir = ctx.repo_stage()
     if bdir and getattr(ctx, "alg", None):
         rng = random.Random(ctx.seed)
